@@ -194,6 +194,8 @@ class NativeContract(object):
 
     def check(self, values):
         """ values: list aligned with self.names -> (applicable, ok, detail) """
+        ft = self.decl.get('float_tol')
+        api.FLOAT_TOL[0] = 1e-9 if ft is None else float(ft)      # exact comparison is opt-in (float_tol = 0)
         vals = [to_real(v) for v in values]
         try:
             if self.pre is not None and not self.pre(*vals):
@@ -250,11 +252,12 @@ class NativeContract(object):
             return out
         for case in self.c.cases:
             pools = []
+            bargs = self.c.decl.get('bounded_args') or {}
             for n in self.names:
-                if n in case:
+                if n in case and n not in bargs:
                     pools.append(api.samples_of(case[n], rng) if isinstance(case[n], api.Dom) else [case[n]])
                 else:
-                    d = (self.c.decl.get('bounded_args') or {}).get(n) or self.c.args.get(n)
+                    d = bargs.get(n) or self.c.args.get(n)
                     if d is None or (d is not api.OMITTED and 'symmap' in d.kinds):
                         return []
                     pools.append(api.samples_of(d, rng))
@@ -285,6 +288,6 @@ class NativeContract(object):
             if app:
                 applicable += 1
                 if not ok and len(fails) < 3:
-                    fails.append({'inputs': [(n, repr(v)) for n, v in zip(self.names, vals)], 'detail': detail,
+                    fails.append({'inputs': [(n, repr(v)[:300]) for n, v in zip(self.names, vals)], 'detail': detail,
                                   '_vals': vals})
         return cases, applicable, fails
